@@ -42,7 +42,7 @@ fn directive_bases() -> Vec<(String, String)> {
     v.push((
         "repeated-items".into(),
         format!(
-            "{head}    reference r1 {{\n        ref: {},\n    }}\n    reference r2 {{\n        ref: {},\n    }}\n    reference r3 {{\n        ref: {},\n    }}\n    reference r4 {{\n        ref: {},\n    }}\n    reference r5 {{\n        ref: {},\n    }}\n    signers {{\n        A,\n        B,\n        A,\n        0x{},\n    }}\n    metadata {{\n        1: \"a\",\n        2: \"b\",\n        1: \"c\",\n    }}\n    mint {{\n        amount: AnyAsset(0x{p}, \"T\", 1),\n        redeemer: (),\n    }}\n    mint {{\n        amount: AnyAsset(0x{p}, \"T\", 2),\n        redeemer: (),\n    }}\n}}\n",
+            "{head}    reference r1 {{\n        ref: {},\n    }}\n    reference r2 {{\n        ref: {},\n    }}\n    reference r3 {{\n        ref: {},\n    }}\n    reference r4 {{\n        ref: {},\n    }}\n    reference r5 {{\n        ref: {},\n    }}\n    signers {{\n        A,\n        B,\n        A,\n        0x{},\n    }}\n    metadata {{\n        1: \"a\",\n        2: \"b\",\n        1: \"c\",\n    }}\n    metadata {{\n        7: \"x\",\n        3: \"y\",\n        5: \"z\",\n        4: \"w\",\n    }}\n    mint {{\n        amount: AnyAsset(0x{p}, \"T\", 1),\n        redeemer: (),\n    }}\n    mint {{\n        amount: AnyAsset(0x{p}, \"T\", 2),\n        redeemer: (),\n    }}\n}}\n",
             r(3), r(1), r(3), r(2), r(0), "0f".repeat(28), p = "cd".repeat(28)
         ),
     ));
